@@ -130,6 +130,11 @@ pub enum Op {
     Drain { it: usize },
     /// F3: abandon the iterator.
     DropIter { it: usize },
+    /// F3 variant: leak the iterator (`mem::forget`): its matcher state is never dropped.
+    ForgetIter { it: usize },
+    /// Legal but unusual: `Debug`-format the object (and the thread's live iterators) in
+    /// the middle of a history. The text is not compared; later results must not change.
+    DebugFmt { slot: usize },
 }
 
 #[derive(Clone, Debug, PartialEq, Eq, Serialize, Deserialize)]
@@ -250,6 +255,10 @@ pub struct RunRecord {
     pub migrations: u64,
     pub polls_after_end: u64,
     pub abandoned_iters: u64,
+    #[serde(default)]
+    pub forgotten_iters: u64,
+    #[serde(default)]
+    pub debug_fmts: u64,
     pub recompiles: u64,
     pub stalled: u64,
     pub cold: bool,
